@@ -739,6 +739,33 @@ func (vc *VC) compileCall(env *Env, n *SNode) *Val {
 			sfail("fe: argument must be a pointer to a field element")
 		}
 		return &Val{K: KInt, C: []string{sel(sel(env.heap.m["fe"], pv.C[0]), pv.C[1])}}
+	case "called":
+		// called("Name", K): the K-th call (source order) to Name has been executed on the current path. In an
+		// ensures clause: every path reaching this return went through that call (e.g. the ladder is always run).
+		if len(args) != 2 || args[0].Op != "str" {
+			sfail("called: expected called(\"Name\", K)")
+		}
+		nm, _ := strconv.Unquote(args[0].Tok)
+		kv := vc.compile(env, args[1])
+		if kv.K != KConst {
+			sfail("called: the call ordinal must be a constant")
+		}
+		var call *ssa.Call
+		for _, b := range vc.fn.Blocks {
+			for _, ins := range b.Instrs {
+				if c, ok := ins.(*ssa.Call); ok && callName(c.Common()) == nm && int64(vc.callOrdinal(c)) == kv.N.Int64() {
+					call = c
+				}
+			}
+		}
+		if call == nil {
+			sfail("called: no call %s#%s in %s", nm, kv.N.String(), vc.fn.Name())
+		}
+		pc, ok := vc.callPC[call]
+		if !ok {
+			return vc.boolVal("false") // not executed before this point on any path
+		}
+		return vc.boolVal(pc)
 	case "ret":
 		// ret("Name", K): the value returned by the K-th call (source order) to Name in the function under
 		// verification (tuple results: ret("Name", K, i)). On a path that does not pass the call the value is
